@@ -212,3 +212,63 @@
             lemma_pow2_pos(n);
         }
     }
+
+    /// two integers with the same bits are equal
+    pub proof fn lemma_same_bits_same_value(a: int, b: int)
+        requires forall|j: nat| #[trigger] bit_of(a, j) == bit_of(b, j)
+        ensures a == b
+        decreases abs(a) + abs(b)
+    {
+        lemma2_to64();
+        // bit 0 equal => same parity; halves have the same bits
+        assert(bit_of(a, 0) == bit_of(b, 0));
+        assert(pow2(0) == 1);
+        let a2 = a / 2;
+        let b2 = b / 2;
+        if a == 0 && b == 0 {
+        } else if a == -1 && b == -1 {
+        } else if (a == 0 && b == -1) || (a == -1 && b == 0) {
+            assert(bit_of(0, 0) != bit_of(-1, 0));
+        } else {
+            assert forall|j: nat| #[trigger] bit_of(a2, j) == bit_of(b2, j) by {
+                lemma_bit_of_half(a, j);
+                lemma_bit_of_half(b, j);
+                assert(bit_of(a, j + 1) == bit_of(b, j + 1));
+            }
+            assert(abs(a2) + abs(b2) < abs(a) + abs(b)) by {
+                lemma_half_smaller(a);
+                lemma_half_smaller(b);
+            }
+            lemma_same_bits_same_value(a2, b2);
+            lemma_fundamental_div_mod(a, 2);
+            lemma_fundamental_div_mod(b, 2);
+        }
+    }
+
+    pub proof fn lemma_half_smaller(a: int)
+        ensures abs(a / 2) <= abs(a), (a != 0 && a != -1) ==> abs(a / 2) < abs(a)
+    {
+        lemma_fundamental_div_mod(a, 2);
+    }
+
+    pub proof fn lemma_bit_of_half(a: int, j: nat)
+        ensures bit_of(a / 2, j) == bit_of(a, j + 1)
+    {
+        lemma_pow2_pos(j);
+        lemma_pow2_unfold(j + 1);
+        let p = pow2(j) as int;
+        // (a/2)/p == a/(2p), for every integer a (floor division)
+        let d = 2 * p;
+        lemma_fundamental_div_mod(a, d);
+        lemma_mod_bound(a, d);
+        let q = a / d;
+        let r = a % d;
+        lemma_fundamental_div_mod(r, 2);
+        lemma_mod_bound(r, 2);
+        let h = r / 2;
+        assert(0 <= h < p);
+        assert(a == 2 * (p * q + h) + r % 2) by (nonlinear_arith) requires a == d * q + r, d == 2 * p, r == 2 * h + r % 2;
+        lemma_div_unique(a, 2, p * q + h, r % 2);
+        lemma_div_unique(a / 2, p, q, h);
+        assert(2 * p == pow2(j + 1));
+    }
